@@ -212,13 +212,53 @@ pub fn before_std_lock<T>(m: &sync::Mutex<T>) {
 }
 
 /// Wrapper for an `Arc<std::sync::Mutex<T>>` whose `lock()` goes through
-/// [`before_std_lock`] first.
+/// [`before_std_lock`] first and reports acquisition and release, so the
+/// harness knows when a waiting actor may retry.
 pub struct HookedStdMutex<T>(pub sync::Arc<sync::Mutex<T>>);
 
+/// Guard returned by [`HookedStdMutex::lock`].
+pub struct HookedStdGuard<'a, T> {
+    inner: Option<sync::MutexGuard<'a, T>>,
+    id: u64,
+}
+
 impl<T> HookedStdMutex<T> {
-    pub fn lock(&self) -> LockResult<sync::MutexGuard<'_, T>> {
+    pub fn lock(&self) -> LockResult<HookedStdGuard<'_, T>> {
         before_std_lock(&self.0);
-        self.0.lock()
+        let id = &*self.0 as *const sync::Mutex<T> as *const () as usize as u64;
+        let r = self.0.lock();
+        if let Some(h) = current() {
+            h.mutex_acquired(id);
+        }
+        match r {
+            Ok(g) => Ok(HookedStdGuard { inner: Some(g), id }),
+            Err(p) => Err(PoisonError::new(HookedStdGuard {
+                inner: Some(p.into_inner()),
+                id,
+            })),
+        }
+    }
+}
+
+impl<T> Deref for HookedStdGuard<'_, T> {
+    type Target = T;
+    fn deref(&self) -> &T {
+        self.inner.as_ref().unwrap()
+    }
+}
+
+impl<T> DerefMut for HookedStdGuard<'_, T> {
+    fn deref_mut(&mut self) -> &mut T {
+        self.inner.as_mut().unwrap()
+    }
+}
+
+impl<T> Drop for HookedStdGuard<'_, T> {
+    fn drop(&mut self) {
+        drop(self.inner.take());
+        if let Some(h) = current() {
+            h.mutex_released(self.id);
+        }
     }
 }
 
